@@ -6,14 +6,15 @@ package main
 import (
 	"bytes"
 	"encoding/json"
-	"os/exec"
 	"flag"
 	"fmt"
 	"os"
+	"os/exec"
 	"path/filepath"
 	"sort"
 	"strings"
 	"sync"
+	"time"
 
 	"verifharness/internal/h"
 )
@@ -69,6 +70,7 @@ func main() {
 	child := fl.Bool("child", false, "internal: run a shard in this process")
 	from := fl.Int("from", 0, "internal: first history index of the shard")
 	to := fl.Int("to", -1, "internal: one past the last history index of the shard")
+	wd := fl.Int("watchdog", 10, "seconds after which a call counts as not returning")
 	pipes := fl.String("pipes", "", "semicolon separated pipeline configurations to cycle through: compression+encryption+signature")
 	keyDir := fl.String("keys", "/verif/work/keys", "directory caching generated key pairs")
 	dump := fl.String("dump", "", "write the full transcript (implementation and model) of every history into this directory")
@@ -89,11 +91,14 @@ func main() {
 	}
 	var res *result
 	switch stream {
-	case "fs":
+	case "fs", "fault":
 		o := fsOpts{seed: *seed, n: *n, length: *length, workers: *workers, driver: *driver, wild: *wild,
 			oracles: splitList(*oracles), rs: ints(*rss), scratch: scratch, replay: *replay, known: loadKnown(*knownPath), mode: *mode,
 			from: *from, to: *to, thoroughCuts: *allCuts, dump: *dump, pipes: splitSemi(*pipes), keyDir: *keyDir}
-		if *child {
+		o.watchdog = time.Duration(*wd) * time.Second
+		if *child && stream == "fault" {
+			res = runFault(o)
+		} else if *child {
 			res = runFS(o)
 		} else {
 			for _, p := range o.pipes {
@@ -102,7 +107,7 @@ func main() {
 					os.Exit(2)
 				}
 			}
-			res = runFSParent(o, os.Args[2:])
+			res = runFSParent(o, stream, os.Args[2:])
 		}
 	default:
 		fmt.Fprintln(os.Stderr, "unknown stream", stream)
@@ -154,24 +159,25 @@ func ints(s string) []int {
 }
 
 type fsOpts struct {
-	seed    int64
-	n       int
-	length  int
-	workers int
-	driver  string
-	wild    bool
-	oracles []string
-	rs      []int
-	scratch string
-	replay  string
-	known   *Known
-	mode    string
-	from    int
-	to      int
+	seed         int64
+	n            int
+	length       int
+	workers      int
+	driver       string
+	wild         bool
+	oracles      []string
+	rs           []int
+	scratch      string
+	replay       string
+	known        *Known
+	mode         string
+	from         int
+	to           int
 	thoroughCuts bool
-	dump    string
-	pipes   []string
-	keyDir  string
+	dump         string
+	pipes        []string
+	keyDir       string
+	watchdog     time.Duration
 }
 
 func has(xs []string, x string) bool {
@@ -478,7 +484,7 @@ func runFS(o fsOpts) *result {
 // runFSParent shards the histories over child processes so that a panic in a goroutine of the
 // code under test (which kills the process) costs one history, is attributed to the call that
 // was running, and is reported as a failing input.
-func runFSParent(o fsOpts, args []string) *result {
+func runFSParent(o fsOpts, stream string, args []string) *result {
 	total := &result{Methods: map[string]int{}, Results: map[string]int{}, Triggers: map[string]int{}, Branches: map[string]int{},
 		KnownHits: map[string]int{}, OracleChecks: map[string]int{}}
 	self, _ := os.Executable()
@@ -507,7 +513,7 @@ func runFSParent(o fsOpts, args []string) *result {
 				outp := filepath.Join(o.scratch, fmt.Sprintf("shard-%d-%d.json", k, from))
 				scr := filepath.Join(o.scratch, fmt.Sprintf("shard-%d", k))
 				os.MkdirAll(scr, 0o755)
-				cargs := append([]string{"fs"}, args...)
+				cargs := append([]string{stream}, args...)
 				cargs = append(cargs, "-child", "-from", fmt.Sprint(from), "-to", fmt.Sprint(sh.to), "-out", outp, "-work", scr, "-workers", "1")
 				cmd := exec.Command(self, cargs...)
 				var stdout, stderr bytes.Buffer
